@@ -16,6 +16,7 @@ CONSTANTS
   MaxRet = 4
   DistinctRets = FALSE
   MaxUnionArgs = 1
+  EmitOneIn = 4
 INVARIANT PropertyHolds
 INVARIANT MachineIsOperator
 INVARIANT BinderAgrees
